@@ -449,7 +449,7 @@ func (p *sparser) parsePrimary() Expr {
 // ---------- contract blocks ----------
 
 type Clause struct {
-	Group string
+	Group     string
 	Kind      string   // requires ensures invariant
 	Tags      []string // property ids; empty = always
 	Text      string
@@ -501,7 +501,7 @@ type Contract struct {
 	Frames    []*Clause // two-state (old/new) transitive properties of a callback, assumed across the library call
 	Each      []*Clause // "each q :: P(q)": established for tid(key) by every callback invocation, stable
 	EachVar   []string
-	Fresh     bool // result is a fresh allocation (lib)
+	Fresh     bool                 // result is a fresh allocation (lib)
 	AtNew     map[string][]*Clause // "atnew T requires P": P holds wherever this function allocates a T
 	NoAlloc   bool
 	Opaque    bool
